@@ -2,6 +2,7 @@ package rules
 
 import (
 	"fmt"
+	"go/constant"
 	"go/token"
 	"go/types"
 	"sort"
@@ -586,4 +587,79 @@ func c13stickyDisconnect(c *Ctx) {
 	if sawDown == 0 || sawReady == 0 {
 		c.R.Undecided(rule, discovInt+".(*stateWatcher).updateState#cases", "the TransientFailure/Shutdown and Ready cases are recognised", fmt.Sprintf("down=%d ready=%d", sawDown, sawReady))
 	}
+}
+
+// c13targetKey (R16, round 8): the key the resolver subscribes to is the registration key. Publishers register under
+// `key/<lease>` and a subscriber watches the prefix `key/`: a key that still carries a slash at either end (a target
+// written `etcd://hosts/user.rpc/`, or with a doubled slash) watches `user.rpc//` and sees nothing. The value
+// GetEndpoints returns is the target's path trimmed of slashes at BOTH ends: derived through strings.Trim(·, "/"), or a
+// left trim and a right trim. (grpc's own Target.Endpoint() removes one leading slash only.)
+func c13targetKey(c *Ctx) {
+	rule := "C13.R16"
+	pkg := "zrpc/resolver/internal/targets"
+	f := c.fn(rule, pkg, "GetEndpoints")
+	if f == nil {
+		return
+	}
+	left, right, sawPath := false, false, false
+	var walk func(v ssa.Value, d int)
+	seen := map[ssa.Value]bool{}
+	walk = func(v ssa.Value, d int) {
+		if v == nil || seen[v] || d > 12 {
+			return
+		}
+		seen[v] = true
+		switch x := v.(type) {
+		case *ssa.Call:
+			if cal := x.Call.StaticCallee(); cal != nil && cal.Pkg != nil && cal.Pkg.Pkg.Path() == "strings" && len(x.Call.Args) == 2 {
+				cut, _ := x.Call.Args[1].(*ssa.Const)
+				slash := cut != nil && cut.Value != nil && cut.Value.Kind() == constant.String && strings.Contains(constant.StringVal(cut.Value), "/")
+				if slash {
+					switch cal.Name() {
+					case "Trim":
+						left, right = true, true
+					case "TrimLeft", "TrimPrefix":
+						left = true
+					case "TrimRight", "TrimSuffix":
+						right = true
+					}
+				}
+				walk(x.Call.Args[0], d+1)
+				return
+			}
+			for _, a := range x.Call.Args {
+				walk(a, d+1)
+			}
+			if x.Call.IsInvoke() {
+				walk(x.Call.Value, d+1)
+			}
+		case *ssa.Phi:
+			for _, e := range x.Edges {
+				walk(e, d+1)
+			}
+		case *ssa.UnOp:
+			walk(x.X, d+1)
+		case *ssa.FieldAddr:
+			if fieldNameAt(x.X.Type(), x.Field) == "Path" {
+				sawPath = true
+			}
+			walk(x.X, d+1)
+		case *ssa.Field:
+			if st, ok := x.X.Type().Underlying().(*types.Struct); ok && st.Field(x.Field).Name() == "Path" {
+				sawPath = true
+			}
+			walk(x.X, d+1)
+		}
+	}
+	rets := 0
+	for _, b := range f.Blocks {
+		if len(b.Instrs) == 0 {
+			continue
+		}
+		if r, ok := b.Instrs[len(b.Instrs)-1].(*ssa.Return); ok && len(r.Results) == 1 {
+			rets++
+			walk(r.Results[0], 0)
+		}
+	}
+	c.R.Check(rets >= 1 && left && right && sawPath, rule, pkg+".GetEndpoints#trimmed", "the subscription key is the target's path with the slashes trimmed at both ends (a key ending in '/' watches the prefix `key//` and matches no registration)", c.P.Pos(f.Pos()), fmt.Sprintf("derives from URL.Path=%v, left trim=%v, right trim=%v", sawPath, left, right), nil, rets)
 }
